@@ -31,6 +31,9 @@ fn cb_action(mut env: ActionEnv) {
     {
         let mut m = c.model.borrow_mut();
         m.actions[aid].runs += 1;
+        // The closure has been consumed: what it captured now belongs to this invocation and is released when
+        // it returns or unwinds
+        m.actions[aid].pending = false;
         let runs = m.actions[aid].runs;
         drop(m);
         if runs > 1 {
@@ -86,11 +89,7 @@ fn cb_action(mut env: ActionEnv) {
             ActionKind::Collect => do_collect(),
         }
     }
-    // Release what the closure captured (the closure is consumed by this call)
-    {
-        let mut m = c.model.borrow_mut();
-        m.actions[aid].pending = false;
-    }
+    // Release what the closure captured
     if let Some(cc) = env.captured.take() {
         api_drop(cc);
     }
@@ -995,6 +994,8 @@ fn after_fault() {
     m.inflight.clear();
     let live = m.live();
     for i in 0..m.objs.len() {
+        // Any object existing now may have been involved in the unwound call: its count may stay too high
+        m.objs[i].leaky = true;
         if live & (1 << i) == 0 {
             m.objs[i].limbo = true;
         }
@@ -1054,8 +1055,9 @@ fn walk(cc: &Cc<Node>, id: u8, w: &mut Walk, faults: u32) -> bool {
         return false;
     }
     let mc = c.model.borrow().count(id as usize);
+    let leaky = c.model.borrow().objs[id as usize].leaky;
     let sc = cc.strong_count();
-    if (faults == 0 && sc != mc) || sc < mc {
+    if (!leaky && sc != mc) || sc < mc {
         v!("C04", "P-count", "strong_count() of object #{} is {} but {} Cc pointers to it exist", id, sc, mc);
         return false;
     }
@@ -1172,7 +1174,7 @@ fn post_op(op: Op, faulted: bool) {
                 v!("C03", "P-once", "object #{} was dropped but its allocation was not released before the API call returned", i);
                 return;
             }
-            if o.boxed && o.value_alive() && !o.freed && !o.moved_out && !o.limbo && !faulted && live & (1 << i) == 0 && m.count(i) == 0 {
+            if o.boxed && o.value_alive() && !o.freed && !o.moved_out && !o.limbo && !o.leaky && !faulted && live & (1 << i) == 0 && m.count(i) == 0 {
                 v!("C04", "P-count", "object #{} has no owner left but was not dropped before the API call returned", i);
                 return;
             }
@@ -1313,7 +1315,7 @@ fn post_op(op: Op, faulted: bool) {
                     let alive = o.boxed && o.value_alive() && !o.freed && !o.moved_out && !o.cyclic_failed;
                     let expect = if alive { m.count(t) } else { 0 };
                     let sc = w.strong_count();
-                    let okc = if o.limbo { sc == 0 || sc >= expect } else if faults > 0 { sc >= expect && (alive || sc == 0) } else { sc == expect };
+                    let okc = if o.limbo { sc == 0 || sc >= expect } else if o.leaky { sc >= expect && (alive || sc == 0) } else { sc == expect };
                     if !okc {
                         v!("C09", "P-wcnt", "Weak::strong_count() for object #{} is {} but {} Cc pointers to it exist (alive: {})", t, sc, expect, alive);
                         return;
@@ -1638,7 +1640,8 @@ pub fn canonical_key(out: &mut Vec<u8>) {
             | (ob.fin_flag as u16) << 6
             | (ob.limbo as u16) << 7
             | (ob.cyclic_failed as u16) << 8
-            | ((ob.map_addr != 0 && !ob.map_freed) as u16) << 9;
+            | ((ob.map_addr != 0 && !ob.map_freed) as u16) << 9
+            | (ob.leaky as u16) << 10;
         out.extend_from_slice(&flags.to_le_bytes());
         out.push(ob.fin_script);
         out.push(ob.drop_script);
